@@ -29,6 +29,7 @@ type c06Case struct {
 	To      int  `json:"to,omitempty"`
 	Through bool `json:"through,omitempty"`
 	// bytesfield
+	Wrap  int    `json:"wrap,omitempty"` // the base64 text is wrapped into lines of this many characters
 	Field string `json:"field,omitempty"`
 	Len   int    `json:"len,omitempty"`
 	// merged: profile entries (index*4 + 2*override + optional) and certificate entries into c06MergeAlphabet
@@ -183,6 +184,14 @@ func c06Enumerate(tier string, yield func(any)) {
 	for _, f := range []string{"issuerUniqueId", "subjectUniqueId", "manip.signatureValue", "manip.tbsPublicKey", "all-four-with-different-values"} {
 		for _, l := range append([]int{0}, c06BodyLens...) {
 			yield(&c06Case{Kind: "bytesfield", Field: f, Len: l})
+		}
+	}
+	// the same fields and a raw extension body with the base64 text wrapped into lines of 64 or 76 characters
+	for _, f := range []string{"issuerUniqueId", "subjectUniqueId", "manip.signatureValue", "manip.tbsPublicKey", "all-four-with-different-values", "ext.raw"} {
+		for _, l := range []int{1, 47, 48, 49, 57, 58, 96, 200, 1000, 65536} {
+			for _, wrap := range []int{64, 76} {
+				yield(&c06Case{Kind: "bytesfield", Field: f, Len: l, Wrap: wrap})
+			}
 		}
 	}
 }
@@ -407,6 +416,9 @@ func c06BytesField(x *engine.Ctx, c *c06Case) {
 	} else {
 		raw = refcfg.Bin(c06Payload(c.Len))
 	}
+	if raw.Kind == "binary" {
+		raw.Wrap = c.Wrap
+	}
 	cfg := &refcfg.CertCfg{Path: "ent.yaml", Subject: "CN=bytes", KeyAlg: "P-224"}
 	owner := "C06"
 	switch c.Field {
@@ -426,10 +438,14 @@ func c06BytesField(x *engine.Ctx, c *c06Case) {
 			}
 			b := c06Payload(c.Len + i + 1)
 			b[0] ^= byte(0x10 << uint(i%4))
-			return refcfg.Bin(b)
+			r := refcfg.Bin(b)
+			r.Wrap = c.Wrap
+			return r
 		}
 		cfg.IssuerUID, cfg.SubjectUID = pl(0), pl(1)
 		cfg.Manip = &refcfg.Manip{SigValue: pl(2), TbsPubKey: pl(3)}
+	case "ext.raw":
+		cfg.Exts = []refcfg.Ext{{Kind: refcfg.KCustom, CustomOID: "1.2.3.4.5", Raw: raw}, {Kind: refcfg.KKU, Raw: raw}}
 	case "aki.id":
 		if c.Len == 0 {
 			return
@@ -440,7 +456,7 @@ func c06BytesField(x *engine.Ctx, c *c06Case) {
 	}
 	d := &Dir{Certs: []*refcfg.CertCfg{cfg}}
 	g := Generate(d, func(w *simfs.World) { w.Put("ent.pem", FixtureKeyPEM("P-224-0")) }, drive.Default)
-	x.Nontrivial(fmt.Sprintf("bytes %s %d", c.Field, c.Len))
+	x.Nontrivial(fmt.Sprintf("bytes %s %d %d", c.Field, c.Len, c.Wrap))
 	if !g.Res.OK() {
 		x.Violation("C06/bytes-field/run-failed field="+c.Field, fmt.Sprintf("len %d: %v %s", c.Len, g.Res.Err(), g.Res.Panic))
 		return
@@ -464,7 +480,7 @@ func init() {
 	register(&engine.Check{
 		ID:          "C06",
 		Level:       "exploration",
-		Rule:        "11 extension kinds x critical {omitted,false,true} x body {raw !null, raw !empty, raw !binary of 1,2,3,127,128,767,768,769,1024,65536 bytes, simplest content}; every list of length 0 and 2 over kind x critical (33^2); all 12 rotations of a list holding each kind once plus a repeated type (each also edited into an entity that was generated with the reverse order, so that it is re-issued through change detection), each also with a .version manipulation of 0..4 (and every kind alone with each), since the list does not depend on the version number written; the effective list under a profile: every profile list of length 1..2 over 4 entries (two SAN forms, EKU, a custom extension with the SAN OID) x override x optional against every certificate list of length 0..3 over the same entries (quick thins the largest block to a quarter); every !binary payload length 1..4096 (quick) / 1..65536 (thorough) at ParseConfig->Builder->Compile level and 1..1100 / 1..4096 through whole certificates; unique ids, signature value, public-key bits, authority key id and addProfessionInfo at the boundary lengths. Oracle: same list, order, OIDs, critical exactly as configured (absent in DER when false/omitted), raw bodies byte-identical. non-trivial = distinct case (payload lengths distinct by construction)",
+		Rule:        "11 extension kinds x critical {omitted,false,true} x body {raw !null, raw !empty, raw !binary of 1,2,3,127,128,767,768,769,1024,65536 bytes, simplest content}; every list of length 0 and 2 over kind x critical (33^2); all 12 rotations of a list holding each kind once plus a repeated type (each also edited into an entity that was generated with the reverse order, so that it is re-issued through change detection), each also with a .version manipulation of 0..4 (and every kind alone with each), since the list does not depend on the version number written; the effective list under a profile: every profile list of length 1..2 over 4 entries (two SAN forms, EKU, a custom extension with the SAN OID) x override x optional against every certificate list of length 0..3 over the same entries (quick thins the largest block to a quarter); every !binary payload length 1..4096 (quick) / 1..65536 (thorough) at ParseConfig->Builder->Compile level and 1..1100 / 1..4096 through whole certificates; unique ids, signature value, public-key bits, authority key id and addProfessionInfo at the boundary lengths. Oracle: same list, order, OIDs, critical exactly as configured (absent in DER when false/omitted), raw bodies byte-identical. non-trivial = distinct case (payload lengths distinct by construction); the byte-valued fields and a raw extension body also with the base64 text wrapped into lines of 64 or 76 characters (10 lengths)",
 		Bound:       map[string]string{"list length": "0..2 exhaustive, 12 by rotation", "payload length": "every length up to 4096 / 65536"},
 		Assumptions: []string{"payload contents are one deterministic pattern per length", "subjectKeyIdentifier content !binary may or may not be wrapped in an OCTET STRING (documentation and code disagree)"},
 		Budget:      budgets(quickBudget, thoroughBudget),
